@@ -35,8 +35,9 @@ def gen_op(rng):
 def generate(rng, tier, i):
     key = rng.choice([None, None, 'xor', 'add'])
     scn = {'kernel': gen.draw_kernel(rng), 'latency': gen.draw_latency(rng, False, ['C', 'S']), 'server_key': key, 'client_key': key,
-           'seeds': [rng.choice([0x0001, 0xA55A, 0xFFFE, 0x8000, rng.randrange(1, 0xFFFF)]) for _ in range(4)],
+           'seeds': [rng.choice([0x0000, 0x0001, 0xA55A, 0xFFFE, 0xFFFF, 0x8000, rng.randrange(0, 0x10000)]) for _ in range(4)],
            'c_max_cmdt': rng.choice([1, 1, 3, 255]), 's_max_cmdt': rng.choice([1, 1, 3, 255]),
+           'c_addr': rng.choice([0xF9, 0xF9, 0x00, 253, rng.choice([a for a in range(254) if a != S_ADDR])]),
            'ops': [gen_op(rng) for _ in range(rng.choice([1, 1, 2, 3, 4]))]}
     return scn
 
@@ -109,7 +110,7 @@ def execute(scn, keep_log=False, hook=None):
             break
         pc = net.proceed_calls[k]
         wantp = {'command': 1 if op['op'] == 'read' else 2, 'address': op['address'], 'pointer_type': op['direct'],
-                 'object_count': op['count'] if op['op'] == 'read' else len(op['values']), 'sa': C_ADDR}
+                 'object_count': op['count'] if op['op'] == 'read' else len(op['values']), 'sa': net.c_addr}
         diff = {f: (pc[f], wantp[f]) for f in wantp if pc[f] != wantp[f]}
         if diff:
             viol.append({'clause': 'proceed-arguments', 'rank': 2, 'feat': shape, 'msg': 'operation %d: proceed callback saw (got, asked) %s' % (k, diff)})
